@@ -291,10 +291,8 @@ func table(op string, x, y core.Dec, mode string) expect {
 		case cx.inf:
 			return expect{kind: "inf", neg: !x.Neg}
 		case cx.zero:
-			if ref.Mode(mode) == "floor" {
-				return expect{kind: "zero", any: true}
-			}
-			return expect{kind: "zero"}
+			// 0 - x: -0 only for +0 under floor
+			return expect{kind: "zero", neg: ref.Mode(mode) == "floor" && !x.Neg}
 		}
 	case "round", "reduce", "rtie", "rtiv", "ceil", "floor":
 		switch {
@@ -517,5 +515,14 @@ func sgn(neg bool) string {
 	return "+"
 }
 
-func TestC08(t *testing.T)       { core.RunPre(t, "C08", cells(), genCase, check) }
-func TestC08Replay(t *testing.T) { core.Replay(t, "C08", check) }
+func TestC08(t *testing.T)       { core.RunPre(t, "C08", cells(), genCase, checkDiff) }
+func TestC08Replay(t *testing.T) { core.Replay(t, "C08", checkDiff) }
+
+// checkDiff: after the table, the cell is compared with Python's decimal module (libmpdec),
+// an independent implementation of the specification (result, sign, conditions).
+func checkDiff(c Case, st *core.Stats) error {
+	if err := check(c, st); err != nil {
+		return err
+	}
+	return arith.DiffExec(c.Case, arith.DiffOpts{Value: true, Flags: true}, 1, st)
+}
